@@ -61,6 +61,14 @@ func main() {
 	switch os.Args[1] {
 	case "verify":
 		cmdVerify(os.Args[2:])
+	case "selftest":
+		r := runSelftest(os.Args[2])
+		fmt.Printf("%s: mutants=%v detected=%v\n", os.Args[2], r["mutants"], r["detected"])
+		if s, ok := r["silent"].([]string); ok {
+			for _, x := range s {
+				fmt.Println("  SILENT:", x)
+			}
+		}
 	case "check":
 		code := cmdCheck(os.Args[2:])
 		cleanupScratch()
